@@ -138,12 +138,18 @@ impl IndexRead {
     /// skipping any that are not present.
     pub async fn iter_available_hunks(self) -> IndexHunkIter {
         let _span = debug_span!("iter_hunks", ?self.transport).entered();
-        let hunks = self.hunks_available().await.expect("hunks available"); // TODO: Don't panic
+        // If the hunks can't be listed, the iterator yields that error (once) rather than
+        // panicking; callers of `try_next` can report it.
+        let (hunks, list_error) = match self.hunks_available().await {
+            Ok(hunks) => (hunks, None),
+            Err(err) => (Vec::new(), Some(err)),
+        };
         debug!(?hunks);
         IndexHunkIter {
             hunks: hunks.into_iter(),
             index: self,
             after: None,
+            list_error,
         }
     }
 }
@@ -156,6 +162,8 @@ pub struct IndexHunkIter {
     pub index: IndexRead,
     /// If set, yield only entries ordered after this apath.
     after: Option<Apath>,
+    /// An error from listing the hunks, not yet returned from `try_next`.
+    list_error: Option<Error>,
 }
 
 impl IndexHunkIter {
@@ -175,6 +183,9 @@ impl IndexHunkIter {
     /// returned as an error rather than silently skipped, so that the caller can
     /// report it.
     pub async fn try_next(&mut self) -> Option<Result<Vec<IndexEntry>>> {
+        if let Some(err) = self.list_error.take() {
+            return Some(Err(err));
+        }
         loop {
             let hunk_number = self.hunks.next()?;
             let entries = match self.index.read_hunk(hunk_number).await {
